@@ -1,11 +1,12 @@
 #!/bin/bash
-# Evaluates every kept seed against the check of its property; prints one line per seed.
+# Evaluates every kept seed against the check of its property; prints one line per seed
+# and records the outcome in seeded/<id>/result.txt
 cd /verif
 for d in seeded/*/; do
   id=$(basename $d); prop=${id%%-*}
   [ -f $d/patch.diff ] || continue
   out=$(scripts/seed_eval.sh /verif/$d $prop 2>&1)
+  echo "$out" > $d/result.txt
   v=$(echo "$out" | grep -c "^VIOLATION")
-  b=$(echo "$out" | grep -c "^BOUNDED-REFUTATION")
-  echo "$id violations=$v bounded=$b $(echo "$out" | grep '^property' | tail -1 | cut -c1-150)"
+  echo "$id violations=$v $(echo "$out" | grep '^property' | tail -1 | cut -c1-150)"
 done
